@@ -20,7 +20,7 @@ VERIF = os.path.dirname(os.path.dirname(os.path.abspath(__file__)))
 
 
 def main():
-    src = sys.argv[1].rstrip("/")
+    src = os.path.abspath(sys.argv[1].rstrip("/"))
     sid = os.path.basename(src)
     pids = [a for a in sys.argv[2:] if re.match(r"C\d\d$", a)] or [sid.split("-")[0]]
     skip_tests = "--skip-tests" in sys.argv
@@ -68,8 +68,9 @@ def main():
             meta["strengthened"] = prev["strengthened"]
         if "unit_tests_with_patch" not in conf and "unit_tests_with_patch" in prev.get("confirmed", {}):
             conf["unit_tests_with_patch"] = prev["confirmed"]["unit_tests_with_patch"]
-    shutil.copy(os.path.join(src, "patch.diff"), dst)
-    shutil.copy(os.path.join(src, "demo.py"), dst)
+    if os.path.realpath(src) != os.path.realpath(dst):
+        shutil.copy(os.path.join(src, "patch.diff"), dst)
+        shutil.copy(os.path.join(src, "demo.py"), dst)
     meta["property"] = meta.get("property", pids[0])
     meta["confirmed"] = conf
     meta["ran"] = ("scratch copy of /repo + patch: pytest tests/unit; demo.py with PYTHONPATH=/repo/src and with the "
